@@ -96,6 +96,27 @@ class TwinError(Exception):
     pass
 
 
+def walk_elems(t):
+    """All elementary transforms reachable from real transform t (depth first, in order)."""
+    if isinstance(t, CompositeTransform):
+        for m in t.transforms():
+            yield from walk_elems(m)
+    else:
+        yield t
+
+
+def contains_multilevel(t) -> bool:
+    if isinstance(t, MultiLevelTransform):
+        return True
+    if isinstance(t, CompositeTransform):
+        return any(contains_multilevel(m) for m in t.transforms())
+    return False
+
+
+def offers_inverse(t) -> bool:
+    return not contains_multilevel(t) and all(cname(e) in INVERTIBLE_ELEM for e in walk_elems(t))
+
+
 class Peek:
     """Non-faulting, non-counting view of a simulator-owned callable (used by twins only)."""
 
@@ -206,6 +227,12 @@ def twin_elem(t) -> SpatialTransform:
         if tuple(src.shape[1:]) != tuple(t.data_shape):
             raise TwinError("link target has parameters of another shape")
         params = src.detach().clone()
+        end, seen = p, set()
+        while kind_of(end) == "L" and id(end) not in seen:
+            seen.add(id(end))
+            end = end.params
+        if kind_of(end) == "P":
+            params = Parameter(params)  # raw optimisable parameters are interpreted like the target's
     tw = cls(grid, params=params, **_ctor_kwargs(t))
     if cond is not None and (cond[0] or cond[1]):
         tw.condition_(*cond[0], **cond[1])
@@ -299,7 +326,7 @@ def world_pts_to_cube(w: Tensor, grid: Grid) -> Tensor:
 def sample_field(field: Tensor, pts: Tensor, align_corners: bool) -> Tensor:
     """Sample field (N, D, *shape) at cube points (N, M, D) with plain torch; returns (N, M, D)."""
     N, D = field.shape[0], field.shape[1]
-    g = pts.to(field.dtype).view(N, *([1] * (D - 1)), -1, D)
+    g = pts.to(field.dtype).expand(N, -1, -1).reshape(N, *([1] * (D - 1)), -1, D)
     out = torch.nn.functional.grid_sample(field, g, mode="bilinear", padding_mode="border", align_corners=align_corners)
     return out.reshape(N, D, -1).transpose(1, 2)
 
@@ -316,6 +343,7 @@ class H:
     alive: bool = True
     affine_params: bool = False  # dense parameters are currently a world-affine field
     foreign_reshape: bool = False  # another handle sharing containers changed parameter shapes
+    cause: str = ""  # operation after which a cached prediction of a linear model should have been refreshed
 
 
 @dataclass
@@ -425,6 +453,34 @@ class XformWorld:
         if x.members:
             x.buf = state
 
+    def set_cleared(self, x: H, what: str):
+        """Model effect of a replacing/resetting operation ``what`` on x.
+
+        Non-rigid members drop u/v (lazy update on next use).  Linear members with own tensors keep no
+        cache.  A linear member with predicted parameters is expected to reflect the new conditioning
+        after condition_ (property C09, observe_at); otherwise its prediction cache is unaffected.
+        """
+        for e in self.elems(x):
+            fam = family(e.obj)
+            k = kind_of(e.obj)
+            if fam in ("dense", "spline"):
+                new = "cleared"
+            elif k in ("P", "B", "N"):
+                new = "cleared"
+            elif k == "C" and what in ("condition_", "acc:condition"):
+                new = "cleared"
+            else:
+                continue
+            for y in self.handles_of_obj(e.obj):
+                y.buf = new
+                y.cause = what
+        if x.members:
+            if generic_pred(x.obj):
+                if what in ("condition_", "acc:condition"):
+                    x.buf, x.cause = "cleared", what
+            else:
+                x.buf = "cleared"
+
     def related_unknown(self, x: H, include_self=False):
         """Every other elementary handle of the component may now hold outdated buffers."""
         mine = {id(e.obj) for e in self.elems(x)}
@@ -439,6 +495,10 @@ class XformWorld:
     def buf_valid(self, x: H) -> bool:
         if generic_pred(x.obj) and x.buf not in ("cleared", "fresh"):
             return False
+        for m in x.members:
+            mh = self.h.get(m)
+            if mh is not None and mh.members and not self.buf_valid(mh):
+                return False
         for e in self.elems(x):
             if family(e.obj) == "lin" and kind_of(e.obj) in ("P", "B"):
                 continue  # no cached state at all
@@ -605,26 +665,68 @@ class _Ops:
         except Exception as e:
             if "injected fault" in str(e):
                 return "faulted", e
+            if isinstance(e, AssertionError) and self._from_grid_resize(e):
+                self.c["probes"]["grid_resize_precision_assert"] += 1
+                return "expected", e
             return "raised", e
+
+    @staticmethod
+    def _from_grid_resize(e: BaseException) -> bool:
+        """float32 self-check ``assert allclose(...)`` inside the pure Grid._resize (property C03, not claimed here)."""
+        tb = e.__traceback__
+        last = None
+        while tb is not None:
+            last = tb
+            tb = tb.tb_next
+        if last is None:
+            return False
+        code = last.tb_frame.f_code
+        return code.co_name == "_resize" and code.co_filename.endswith("deepali/core/grid.py")
+
+    def classify(self, st: str, r, x: Optional[H], opdesc: str, prop: str = "C09", cls: str = "raises") -> Optional[StepResult]:
+        """Uniform handling of a guarded deepali call that did not return normally."""
+        if st == "ok":
+            return None
+        if st == "expected":
+            return StepResult("expected_error", opdesc + "-expected")
+        if st == "faulted":
+            if "callable" in str(r):
+                self.c["faults"]["callable_raises"] += 1
+            if x is not None:
+                self.set_buf(x, "unknown")
+                self.related_unknown(x)
+            self.after_fault = True
+            return StepResult("faulted", opdesc + "-faulted")
+        return StepResult("ok", opdesc + "-raised", [self.viol(prop, cls, x, opdesc, self.exc_detail(r))])
 
     def exc_detail(self, e: BaseException) -> Dict[str, Any]:
         return {"exception": type(e).__name__, "message": str(e)[:300]}
 
-    def has_none(self, x: H) -> bool:
-        """Some elementary member cannot be evaluated (no parameters, or linked to one without)."""
-        for e in self.elems(x):
-            cur, seen = e.obj, set()
+    def has_none(self, x: H, strict: bool = False) -> bool:
+        """Some elementary member cannot be evaluated (no parameters, or linked to one without).
+
+        Members of a generic transform with predicted parameters receive them on update(): they only
+        count when ``strict`` (observation without update)."""
+        def rec(t, under_pred: bool) -> bool:
+            if isinstance(t, CompositeTransform):
+                up = under_pred or generic_pred(t)
+                return any(rec(m, up) for m in t.transforms())
+            cur, seen = t, set()
             while kind_of(cur) == "L" and id(cur) not in seen:
                 seen.add(id(cur))
                 cur = cur.params
             if kind_of(cur) in ("N", "L", "?"):
-                return True
-        if isinstance(x.obj, GenericSpatialTransform):
-            # members of a generic transform without parameters of their own
-            for m in x.obj.transforms():
-                if kind_of(m) == "N" and not callable(getattr(x.obj, "params", None)):
-                    return True
-        return False
+                return strict or not under_pred
+            return False
+
+        return rec(x.obj, False)
+
+    def may_be_singular(self, x: H) -> tuple:
+        """An inverted HomogeneousTransform legitimately fails for a singular matrix (e.g. after reset to zeros)."""
+        for e in self.elems(x):
+            if cname(e.obj) == "HomogeneousTransform" and bool(getattr(e.obj, "invert", False)):
+                return (torch.linalg.LinAlgError,)
+        return ()
 
     def shape_bound(self, x: H) -> bool:
         """Parameters come (directly or through links) from a simulator callable bound to one shape."""
@@ -632,7 +734,13 @@ class _Ops:
         while kind_of(cur) == "L" and id(cur) not in seen:
             seen.add(id(cur))
             cur = cur.params
+        if any(generic_pred(y.obj) and any(m is x.obj for m in y.obj.transforms()) for y in self.h.values()):
+            return True
         return kind_of(cur) == "C" or any(kind_of(y.obj) == "L" and y.obj.params is x.obj for y in self.h.values() if not y.members)
+
+    def owned_by_pred(self, x: H) -> bool:
+        """x is a member of a generic transform that overwrites its members' parameters on update()."""
+        return any(generic_pred(y.obj) and any(m is x.obj for m in walk_elems(y.obj)) and y.obj is not x.obj for y in self.h.values())
 
     def in_composite(self, x: H) -> bool:
         return any(y.alive and x.hid in y.members for y in self.h.values()) or any(
@@ -722,7 +830,8 @@ class _Ops:
                 obj.condition_(self.cond_tensor(op["cseed"]))
         else:
             raise HarnessError(f"op_new kind {kind}")
-        self.add(hid, obj, origin="root", smooth=smooth)
+        y = self.add(hid, obj, origin="root", smooth=smooth)
+        y.affine_params = kind in ("P", "B") and op.get("init", {}).get("gen") == "affine"
         return StepResult("ok", "new")
 
     def _net_scale(self, name: str, generic: bool = False, grid: Optional[Grid] = None) -> float:
@@ -734,7 +843,44 @@ class _Ops:
                     "IsotropicScaling": 0.15, "AnisotropicScaling": 0.15, "HomogeneousTransform": 0.1}.get(name, 0.1)
 
     # -------------------------------------------------------- observations
+    def pred_replaces(self, x: H):
+        """update() of a generic transform with predicted parameters *replaces* its members' parameters:
+        for inverse pairs of those members this is a replacement, not an in-place change."""
+        def rec(t):
+            if isinstance(t, CompositeTransform):
+                if generic_pred(t):
+                    for m in t.transforms():
+                        for mh in self.handles_of_obj(m):
+                            self.mark_pairs(mh, True, "data_")
+                for m in t.transforms():
+                    rec(m)
+        rec(x.obj)
+
+    def links_synced(self, x: H) -> bool:
+        """Linked members read the *cached* prediction of their target; that is only well defined
+        (independent of the order of updates) while every cache along the chain is fresh."""
+        for e in walk_elems(x.obj):
+            if kind_of(e) != "L":
+                continue
+            cur, seen = e.params, {id(e)}
+            while True:
+                hs = self.handles_of_obj(cur)
+                k = kind_of(cur)
+                if k in ("L", "C") and not (hs and hs[0].buf == "fresh"):
+                    return False
+                for y in self.h.values():
+                    if generic_pred(y.obj) and y.obj is not cur and any(m is cur for m in walk_elems(y.obj)) and y.buf != "fresh":
+                        return False
+                if k != "L" or id(cur) in seen:
+                    break
+                seen.add(id(cur))
+                cur = cur.params
+        return True
+
     def _twin(self, x: H):
+        if not self.links_synced(x):
+            self.c["probes"]["twin_skipped_link_unsynced"] += 1
+            return None, ("twin-na", TwinError("link target not updated"))
         try:
             return twin_of(x.obj), None
         except TwinError as e:
@@ -752,16 +898,16 @@ class _Ops:
             pts = x.obj.grid().coords().unsqueeze(0)
         else:
             pts = self.pts(op["pseed"], N)
-        none = self.has_none(x)
+        none = self.has_none(x) or not self.links_synced(x)
         tw, terr = (None, None) if none else self._twin(x)
         k = op.get("interrupt")
         if k is not None:
             with Interrupt(int(k)) as mode:
-                st, y = self.guarded(lambda: x.obj(pts, grid=use_grid))
+                st, y = self.guarded(lambda: x.obj(pts, grid=use_grid), expect=(Exception,) if none else self.may_be_singular(x))
             if mode.fired:
                 self.c["faults"]["interrupt"] += 1
         else:
-            st, y = self.guarded(lambda: x.obj(pts, grid=use_grid), expect=(Exception,) if none else ())
+            st, y = self.guarded(lambda: x.obj(pts, grid=use_grid), expect=(Exception,) if none else self.may_be_singular(x))
         if st == "faulted":
             if "callable" in str(y):
                 self.c["faults"]["callable_raises"] += 1
@@ -774,10 +920,13 @@ class _Ops:
         if st == "raised":
             return StepResult("ok", "call-raised", [self.viol("C09", "raises", x, "call", self.exc_detail(y))])
         if none:
-            # evaluated although the model says no parameters are set: nothing to compare with
+            # evaluated although the model says parameters are missing or a link chain is not refreshed:
+            # nothing to compare with, and whatever was cached is not known to be current
+            self.set_buf(x, "unknown")
             return StepResult("ok", "call-unjudged")
         # a successful call recomputes every buffer of x (and of its members)
         self.set_buf(x, "fresh")
+        self.pred_replaces(x)
         if any(kind_of(e.obj) in ("C", "L") for e in self.elems(x)) or isinstance(x.obj, GenericSpatialTransform):
             self.related_unknown(x)
         out = StepResult("ok", digest_bytes(tdig(y)))
@@ -788,6 +937,8 @@ class _Ops:
                 self.c["probes"]["twin_unavailable"] += 1
             return out
         st2, yt = self.guarded(lambda: tw(pts, grid=use_grid))
+        if st2 == "expected":
+            return out
         if st2 != "ok":
             out.violations.append(self.viol("C09", "twin-failed", x, "call", self.exc_detail(yt)))
             return out
@@ -809,7 +960,7 @@ class _Ops:
             return StepResult("skipped")
         which = op.get("which", "disp")
         g = self.make_grid(op["grid"]) if op.get("grid") else None
-        none = self.has_none(x)
+        none = self.has_none(x, strict=True) or not self.links_synced(x)
         valid = self.buf_valid(x) and not none
         tw, terr = (None, None)
         if valid:
@@ -825,11 +976,11 @@ class _Ops:
         k = op.get("interrupt")
         if k is not None:
             with Interrupt(int(k)) as mode:
-                st, d = self.guarded(lambda: f(x.obj))
+                st, d = self.guarded(lambda: f(x.obj), expect=(Exception,) if none else self.may_be_singular(x))
             if mode.fired:
                 self.c["faults"]["interrupt"] += 1
         else:
-            st, d = self.guarded(lambda: f(x.obj), expect=(Exception,) if none else ())
+            st, d = self.guarded(lambda: f(x.obj), expect=(Exception,) if none else self.may_be_singular(x))
         if st == "faulted":
             if "callable" in str(d):
                 self.c["faults"]["callable_raises"] += 1
@@ -850,7 +1001,7 @@ class _Ops:
         for e in self.elems(x):
             if family(e.obj) in ("dense", "spline") and e.buf == "cleared":
                 for y in self.handles_of_obj(e.obj):
-                    y.buf = "fresh"
+                    y.buf = "unknown" if none else "fresh"
         if not valid:
             self.c["probes"]["disp_while_unknown"] += 1
             return out
@@ -859,6 +1010,8 @@ class _Ops:
                 out.violations.append(self.viol("C09", "twin-failed", x, which, self.exc_detail(terr[1])))
             return out
         st2, dt = self.guarded(lambda: f(tw.update()))
+        if st2 == "expected":
+            return out
         if st2 != "ok":
             out.violations.append(self.viol("C09", "twin-failed", x, which, self.exc_detail(dt)))
             return out
@@ -868,17 +1021,33 @@ class _Ops:
             self.c["checks"][which + "_right_after_change"] += 1
             self.nontrivial = True
         if not ok:
-            out.violations.append(
-                self.viol("C09", "stale-" + which, x, which + ("(grid)" if g is not None else "") + ":" + self.last_change.get(x.hid, "-"),
-                          {"max_err": err, "shape": list(d.shape), "twin_shape": list(dt.shape), "buf_model": x.buf}))
+            v = self.viol("C09", "stale-obs", x, self.last_change.get(x.hid, "-"),
+                          {"max_err": err, "shape": list(d.shape), "twin_shape": list(dt.shape), "buf_model": x.buf,
+                           "observed_through": which + ("(grid)" if g is not None else "")})
+            # name the part of x that holds predicted/linked parameters (the only state a linear model caches)
+            culprits = [e for e in self.elems(x) if kind_of(e.obj) in ("C", "L") and family(e.obj) == "lin"]
+            if generic_pred(x.obj):
+                fam, kd = "generic", "C"
+            elif culprits:
+                fam = "+".join(sorted({family(e.obj) for e in culprits}))
+                kd = "".join(sorted({kind_of(e.obj) for e in culprits}))
+            else:
+                fam, kd = family(x.obj), self.kinds(x)
+            cause = self.last_change.get(x.hid, "-")
+            pending = [e.cause for e in culprits if e.buf == "cleared" and e.cause] + ([x.cause] if generic_pred(x.obj) and x.cause else [])
+            if pending:
+                cause = pending[0]
+            v.sig = f"stale-obs/{cause}/{fam}/{kd}"
+            out.violations.append(v)
+            out.digest = "stale-obs"  # the stale value may be uninitialised memory: keep it out of the run digest
         return out
 
     def op_update(self, op) -> StepResult:
         x = self.get(op["h"])
         if x is None:
             return StepResult("skipped")
-        none = self.has_none(x)
-        st, r = self.guarded(lambda: x.obj.update(), expect=(Exception,) if none else ())
+        none = self.has_none(x) or not self.links_synced(x)
+        st, r = self.guarded(lambda: x.obj.update(), expect=(Exception,) if none else self.may_be_singular(x))
         if st == "faulted":
             self.c["faults"]["callable_raises"] += 1
             self.set_buf(x, "unknown")
@@ -888,10 +1057,13 @@ class _Ops:
             return StepResult("expected_error", "update-noparams")
         if st == "raised":
             return StepResult("ok", "update-raised", [self.viol("C09", "raises", x, "update", self.exc_detail(r))])
+        self.pred_replaces(x)
         if not none:
             self.set_buf(x, "fresh")
             if any(kind_of(e.obj) in ("C", "L") for e in self.elems(x)) or isinstance(x.obj, GenericSpatialTransform):
                 self.related_unknown(x)
+        else:
+            self.set_buf(x, "unknown")
         return StepResult("ok", "update")
 
     def op_clear(self, op) -> StepResult:
@@ -899,14 +1071,15 @@ class _Ops:
         if x is None:
             return StepResult("skipped")
         st, r = self.guarded(lambda: x.obj.clear_buffers())
-        if st != "ok":
-            return StepResult("ok", "clear-raised", [self.viol("C09", "raises", x, "clear_buffers", self.exc_detail(r))])
+        bad = self.classify(st, r, x, "clear_buffers")
+        if bad:
+            return bad
         # clear_buffers() drops u/v of non-rigid models; predicted parameters of linear models are kept
         for e in self.elems(x):
             if family(e.obj) in ("dense", "spline"):
                 for y in self.handles_of_obj(e.obj):
                     y.buf = "cleared"
-        self.note_change(x, "clear_buffers", fresh=self.buf_valid(x))
+        self.note_change(x, "clear_buffers", fresh=any(family(e.obj) in ("dense", "spline") for e in self.elems(x)) and self.buf_valid(x))
         return StepResult("ok", "clear")
 
     # -------------------------------------------------------- state changes
@@ -931,9 +1104,11 @@ class _Ops:
         if not hasattr(t, setter):
             return StepResult("skipped")
         N = int(op["val"].get("N", self.batch_of(t)))
+        if N != self.batch_of(t) and (self.in_composite(x) or any(p.valid and (p.t == x.hid or p.i == x.hid) for p in self.pairs)):
+            return StepResult("skipped")
         val = self.param_tensor(t, dict(op["val"], kind=k), N)
         if setter in ("angles_",):
-            val = gen.randn(op["val"]["seed"], (N,) + tuple(t.data_shape), 0.3)
+            val = gen.randn(op["val"]["seed"], (N,) + tuple(t.data_shape), 0.3).clamp(-0.7, 0.7)
         elif setter == "scales_":
             val = gen.randn(op["val"]["seed"], (N,) + tuple(t.data_shape), 0.15).exp()
         elif setter == "quaternion_":
@@ -954,7 +1129,8 @@ class _Ops:
         if k in ("C", "L"):
             return StepResult("ok", setter + "-unexpected-ok", [self.viol("C09", "readonly-not-enforced", x, setter, {})])
         x.smooth = x.smooth and op["val"].get("gen", "smooth") in ("smooth", "affine")
-        self.set_buf(x, "cleared")
+        x.affine_params = op["val"].get("gen") == "affine" and setter == "data_"
+        self.set_cleared(x, setter)
         self.related_unknown(x)
         self.mark_pairs(x, True, "data_")
         self.note_change(x, setter, fresh=True)
@@ -973,9 +1149,11 @@ class _Ops:
         with torch.no_grad():
             t.params.add_(delta)
         x.smooth = x.smooth and op["val"].get("gen", "smooth") in ("smooth", "affine")
+        aff = op["val"].get("gen") == "affine"
         for y in self.storage_mates(t):
             y.buf = "unknown"
             y.smooth = y.smooth and x.smooth
+            y.affine_params = y.affine_params and aff
             self.mark_pairs(y, False, "inplace")
         self.related_unknown(x, include_self=True)
         self.note_change(x, "inplace")
@@ -1001,7 +1179,9 @@ class _Ops:
             opt.step()
             return loss
 
-        st, r = self.guarded(step)
+        st, r = self.guarded(step, expect=self.may_be_singular(x))
+        if st == "expected":
+            return StepResult("expected_error", "sgd-singular")
         if st == "faulted":
             self.c["faults"]["callable_raises"] += 1
             self.set_buf(x, "unknown")
@@ -1009,10 +1189,12 @@ class _Ops:
             return StepResult("faulted", "sgd-faulted")
         if st == "raised":
             return StepResult("ok", "sgd-raised", [self.viol("C09", "raises", x, "sgd-step", self.exc_detail(r))])
+        self.pred_replaces(x)
         for e in self.elems(x):
             e.smooth = False if family(e.obj) in ("dense", "spline") else e.smooth
             for y in self.storage_mates(e.obj):
                 y.buf = "unknown"
+                y.affine_params = False
                 self.mark_pairs(y, False, "sgd")
         self.related_unknown(x, include_self=True)
         self.note_change(x, "sgd")
@@ -1020,22 +1202,24 @@ class _Ops:
 
     def op_reset(self, op) -> StepResult:
         x = self.get(op["h"])
-        if x is None or x.members:
+        if x is None or x.members or isinstance(x.obj, CompositeTransform):
             return StepResult("skipped")
         t = x.obj
         k = kind_of(t)
         st, r = self.guarded(lambda: t.reset_parameters())
-        if st != "ok":
-            return StepResult("ok", "reset-raised", [self.viol("C09", "raises", x, "reset_parameters", self.exc_detail(r))])
+        bad = self.classify(st, r, x, "reset_parameters")
+        if bad:
+            return bad
         if k in ("P", "B"):
             # documented in-place reset of the shared tensor
             for y in self.storage_mates(t):
                 if y is not x:
                     y.buf = "unknown"
+                y.affine_params = True  # all zeros
                 self.mark_pairs(y, False, "reset")
             # the statement covers every model with buffered state; rotation/scaling models
             # keep no buffers, so 'cleared' is exact for them as well
-            self.set_buf(x, "cleared" if family(t) != "lin" or True else x.buf)
+            self.set_cleared(x, "reset_parameters")
             self.related_unknown(x)
             self.note_change(x, "reset_parameters", fresh=True)
         else:
@@ -1052,9 +1236,10 @@ class _Ops:
             return StepResult("skipped")
         c = self.cond_tensor(op["cseed"])
         st, r = self.guarded(lambda: x.obj.condition_(c))
-        if st != "ok":
-            return StepResult("ok", "condition-raised", [self.viol("C09", "raises", x, "condition_", self.exc_detail(r))])
-        self.set_buf(x, "cleared")
+        bad = self.classify(st, r, x, "condition_")
+        if bad:
+            return bad
+        self.set_cleared(x, "condition_")
         self.related_unknown(x)
         self.mark_pairs(x, True, "condition_")
         self.note_change(x, "condition_", fresh=True)
@@ -1151,18 +1336,24 @@ class _Ops:
                         w = cube_pts_to_world(pc, new)
                         probe = ("world", w, self._world_probe(t, world_pts_to_cube(w, old), old, velocity))
         expect = ()
+        n_before = int(t.params.shape[0]) if k in ("P", "B") else 0
         st, r = self.guarded(lambda: t.grid_(new), expect=expect)
-        if st == "raised":
-            return StepResult("ok", "grid_-raised", [self.viol("C09", "raises", x, "grid_:" + mode, self.exc_detail(r))])
+        bad = self.classify(st, r, x, "grid_:" + mode)
+        if bad:
+            return bad
         x.foreign_reshape = False
+        x.affine_params = bool(x.affine_params and probe is not None and probe[0] == "world")
         for y in self.h.values():
             if y.comp == x.comp and y is not x and not y.members:
                 y.foreign_reshape = True
-        self.set_buf(x, "cleared")
+        self.set_cleared(x, "grid_")
         self.related_unknown(x)
         self.mark_pairs(x, True, "grid_")
         self.note_change(x, "grid_:" + mode, fresh=True)
         out = StepResult("ok", digest_bytes(tdig(t.params) if k in ("P", "B") else b"-"))
+        if k in ("P", "B") and kind_of(t) in ("P", "B") and int(t.params.shape[0]) != n_before:
+            out.violations.append(self.viol("C09", "batch-lost", x, "grid_:" + mode, {"before": n_before, "after": int(t.params.shape[0])}))
+            return out
         # ---- the transform must now report the grid it was given
         if gen.grid_key(t.grid()) != gen.grid_key(new) and not (t.grid() == new and t.grid().align_corners() == new.align_corners()):
             out.violations.append(self.viol("C09", "grid-not-set", x, "grid_:" + mode, {"want": repr(new), "got": repr(t.grid())}))
@@ -1171,9 +1362,9 @@ class _Ops:
             kindp, where, before = probe
             if kindp == "nodes":
                 st1, r1 = self.guarded(lambda: t.update())
-                if st1 != "ok":
-                    out.violations.append(self.viol("C09", "raises", x, "update-after-grid_", self.exc_detail(r1)))
-                    return out
+                bad = self.classify(st1, r1, x, "update-after-grid_")
+                if bad:
+                    return bad
                 f1 = t.v if velocity else t.u
                 after = sample_field(f1.detach(), where.expand(f1.shape[0], -1, -1), True)
                 tol = 1e-4 * 2.0 / max(int(s) for s in new.size())
@@ -1207,6 +1398,7 @@ class _Ops:
             return y
         y = self.add(hid, obj, comp, origin, buf=buf if buf is not None else x.buf, smooth=x.smooth)
         y.affine_params = x.affine_params
+        y.cause = x.cause
         return y
 
     def op_copy(self, op) -> StepResult:
@@ -1250,10 +1442,16 @@ class _Ops:
             buf = "unknown"
         else:
             raise HarnessError(how)
-        if st != "ok":
-            prop = "C09"
-            return StepResult("ok", how + "-raised", [self.viol(prop, "raises", x, "acc:" + how, self.exc_detail(r))])
-        y = self._new_from(x, r, hid, how, buf=buf)
+        bad = self.classify(st, r, x, "acc:" + how)
+        if bad:
+            return bad
+        y = self._new_from(x, r, hid, how, buf=x.buf if how in ("grid", "data", "condition") else buf)
+        if how in ("grid", "data", "condition"):
+            self.set_cleared(y, "acc:" + how)
+        if how in ("grid", "data") and kind_of(t) == "P":
+            for z in self.h.values():
+                if z.comp == x.comp and not z.members and z is not y:
+                    z.foreign_reshape = True
         if how in ("grid", "data"):
             y.smooth = x.smooth and (how == "grid" or op["val"].get("gen", "smooth") in ("smooth", "affine"))
             if how == "data":
@@ -1300,14 +1498,15 @@ class _Ops:
         t = x.obj
         link, ub = bool(op["link"]), bool(op["ub"])
         via = op.get("via", "inverse")
-        offers = all(cname(e.obj) in INVERTIBLE_ELEM for e in self.elems(x)) and not isinstance(t, MultiLevelTransform)
+        offers = offers_inverse(t)
         st, r = self.guarded((lambda: t.inv) if via == "inv" else (lambda: t.inverse(link=link, update_buffers=ub)),
                              expect=() if offers else (NotImplementedError,))
         desc = f"{via}(link={link})"
         if st == "expected":
             return StepResult("expected_error", "inverse-not-offered")
-        if st == "raised":
-            return StepResult("ok", "inverse-raised", [self.viol("C07", "inverse-raises", x, desc, self.exc_detail(r))])
+        bad = self.classify(st, r, x, desc, prop="C07", cls="inverse-raises")
+        if bad:
+            return bad
         if not offers:
             return StepResult("ok", "inverse-unexpected")
         hid = int(op["out"])
@@ -1333,6 +1532,8 @@ class _Ops:
         if x is None or x.members:
             return StepResult("skipped")
         t = x.obj
+        if self.owned_by_pred(x):
+            return StepResult("skipped")
         if op["how"] == "unlink_":
             st, r = self.guarded(lambda: t.unlink_())
             what = "unlink_"
@@ -1351,8 +1552,9 @@ class _Ops:
             what = "link_"
             if st == "ok":
                 self.merge_comp(x.comp, o.comp)
-        if st != "ok":
-            return StepResult("ok", what + "-raised", [self.viol("C09", "raises", x, what, self.exc_detail(r))])
+        bad = self.classify(st, r, x, what)
+        if bad:
+            return bad
         self.set_buf(x, "unknown")
         self.related_unknown(x)
         self.mark_pairs(x, True, what)
@@ -1366,12 +1568,17 @@ class _Ops:
         g0 = ms[0].obj.grid()
         if not all(m.obj.grid().same_domain_as(g0) for m in ms):
             return StepResult("skipped")
+        if any(self.owned_by_pred(m) for m in ms):
+            return StepResult("skipped")
         cls = MultiLevelTransform if op["kind"] == "multi" else SequentialTransform
-        if cls is MultiLevelTransform and all(m.obj.linear for m in ms):
+        if cls is MultiLevelTransform and (all(m.obj.linear for m in ms) or any(self.batch_of(m.obj) != 1 for m in ms)):
+            return StepResult("skipped")
+        if len({self.batch_of(m.obj) for m in ms}) != 1:
             return StepResult("skipped")
         st, r = self.guarded(lambda: cls(*[m.obj for m in ms]))
-        if st != "ok":
-            return StepResult("ok", "compose-raised", [self.viol("C09", "raises", ms[0], "compose:" + op["kind"], self.exc_detail(r))])
+        bad = self.classify(st, r, None, "compose:" + op["kind"])
+        if bad:
+            return bad
         y = self.add(int(op["out"]), r, ms[0].comp, "compose", smooth=all(m.smooth for m in ms))
         y.members = [m.hid for m in ms]
         for m in ms[1:]:
@@ -1400,6 +1607,8 @@ class _Ops:
         if x is None or x.members or kind_of(x.obj) not in ("P", "B"):
             return StepResult("skipped")
         t = x.obj
+        if "params" not in t.state_dict():
+            return StepResult("skipped")  # parameters set on a transform constructed with params=None are not durable by design
         sd = {k: v.detach().clone() for k, v in t.state_dict().items()}
         self.ckpt[int(op["slot"])] = {
             "cls": type(t), "grid": t.grid().clone(), "kw": _ctor_kwargs(t), "kind": kind_of(t),
@@ -1429,8 +1638,9 @@ class _Ops:
         ref = cls(ck["grid"], params=Parameter(saved.clone()) if ck["kind"] == "P" else saved.clone(), **ck["kw"])
         pts = self.pts(op["pseed"], ck["N"])
         st1, y1 = self.guarded(lambda: obj(pts))
-        if st1 != "ok":
-            return StepResult("ok", "restart-call-raised", [self.viol("C09", "raises", y, "call-after-restart", self.exc_detail(y1))])
+        bad = self.classify(st1, y1, y, "call-after-restart")
+        if bad:
+            return bad
         y.buf = "fresh"
         ok, err = close(y1, ref(pts))
         self.c["checks"]["restart_vs_saved"] += 1
@@ -1459,13 +1669,31 @@ class _Ops:
             return StepResult("skipped")
         if self.has_none(T):
             return StepResult("skipped")
+        if not self.links_synced(T):
+            # a linked forward transform reads a cached prediction that its target has not refreshed yet
+            self.c["probes"]["rt_skipped_link_unsynced"] += 1
+            return StepResult("skipped")
         N = max(self.batch_of(T.obj), 1)
         x0 = self.pts(op["pseed"], N)
         desc = f"roundtrip(link={p.link})"
         vel_T = [e for e in self.elems(T) if cname(e.obj) in VELOCITY]
         lin_only = not vel_T and all(family(e.obj) == "lin" for e in self.elems(T))
 
-        st, y = self.guarded(lambda: T.obj(x0))
+        sing = tuple(set(self.may_be_singular(T) + self.may_be_singular(I)))
+        self.pred_replaces(T)
+        self.pred_replaces(I)
+        if not self.pairs[idx].valid:
+            return StepResult("skipped")
+        if any(kind_of(e) == "L" for e in walk_elems(T.obj)):
+            # a linked member reads the *cached* prediction of its target: let the forward transform settle
+            # (one update per link level) so that consecutive evaluations of T agree with each other
+            for _ in range(3):
+                st, y = self.guarded(lambda: T.obj(x0), expect=sing)
+                if st != "ok":
+                    break
+        st, y = self.guarded(lambda: T.obj(x0), expect=sing)
+        if st == "expected":
+            return StepResult("expected_error", "rt-singular")
         if st == "faulted":
             self.c["faults"]["callable_raises"] += 1
             self.set_buf(T, "unknown")
@@ -1476,7 +1704,9 @@ class _Ops:
         self.set_buf(T, "fresh")
         if self.has_none(I):
             return StepResult("skipped")
-        st, z = self.guarded(lambda: I.obj(y))
+        st, z = self.guarded(lambda: I.obj(y), expect=sing)
+        if st == "expected":
+            return StepResult("expected_error", "rt-singular")
         if st == "faulted":
             self.c["faults"]["callable_raises"] += 1
             self.set_buf(I, "unknown")
@@ -1484,9 +1714,11 @@ class _Ops:
         if st != "ok":
             return StepResult("ok", "rt-raised", [self.viol("C07", "inverse-raises", T, desc + ":I(T(x))", self.exc_detail(z))])
         self.set_buf(I, "fresh")
-        st, y2 = self.guarded(lambda: I.obj(x0))
+        st, y2 = self.guarded(lambda: I.obj(x0), expect=sing)
         if st == "ok":
-            st, z2 = self.guarded(lambda: T.obj(y2))
+            st, z2 = self.guarded(lambda: T.obj(y2), expect=sing)
+        if st == "expected":
+            return StepResult("expected_error", "rt-singular")
         if st == "faulted":
             self.c["faults"]["callable_raises"] += 1
             self.set_buf(T, "unknown")
@@ -1682,6 +1914,9 @@ class _Gen:
             op["config"] = {"transform": model, "affine_model": aff, "control_point_spacing": cps,
                             "scaling_and_squaring_steps": rng.choice([5, 6]), "rotation_model": "ZXZ"}
             kind = rng.weighted([("P", 3), ("B", 2), ("C", 4)])
+            if kind == "C" and "K" in aff:
+                aff = aff.replace("K", "")  # predicted shearing is not supported by GenericSpatialTransform._data (see DESIGN.md section 4)
+                op["config"]["affine_model"] = aff
             N = 1
             op["N"] = 1
             nout = 8
@@ -1853,7 +2088,7 @@ class _Gen:
 
     def gen_inverse(self, rng):
         def offers(y):
-            return all(cname(e.obj) in INVERTIBLE_ELEM for e in self.elems(y)) and not isinstance(y.obj, MultiLevelTransform)
+            return offers_inverse(y.obj)
 
         x = self.pick(rng, lambda y: offers(y) or rng.chance(0.05))
         if x is None:
